@@ -86,7 +86,7 @@ def job_subset(job, n, k, eps, partial):
     job.lifted()
     nn = c.native('nfa_algorithms')
     job.differential(30, lambda mv: nat.dfa_json_of(c.conc(Dr, mv)),
-                     lambda mv: nat.dfa_json_of(nn.nfa_to_dfa(nat.mk_nfa(view.to_json(mv), c.native('nfa')))), 'nfa_to_dfa')
+                     lambda mv: nat.dfa_json_of(nn.nfa_to_dfa(nat.mk_nfa(view.to_json(mv), c.native('nfa')))), 'nfa_to_dfa', replay=('subset', {'N': view.to_json}))
     rp = ('subset', {'N': view.to_json})
     check_result(job, N, view, Dr, names, syms, '', rp)
     # argument unchanged
